@@ -202,5 +202,10 @@ def c18(prop, tier):
     ck.add_harness(res, payload, 'lifecycle')
     if not res.get('inconclusive') and not res.get('crashed'):
         ck.traces_validated += res.get('behaviours', 0)
-    log('  lifecycle: %d moments, %d comparisons, %d violations' % (res.get('behaviours', 0), res.get('comparisons', 0), len(res['violations'])))
+    st = res.get('stats', {})
+    for k in ('sibling_replications_after_close', 'drop_of_closed_handle_after_reopen', 'loads_waiting_for_a_block'):
+        ck.extra[k] = st.get(k, 0)
+    log('  lifecycle: %d moments, %d comparisons, %d violations (sibling replications after a close %d, drops after reopen %d, loads waiting for a block %d)' % (
+        res.get('behaviours', 0), res.get('comparisons', 0), len(res['violations']), st.get('sibling_replications_after_close', 0),
+        st.get('drop_of_closed_handle_after_reopen', 0), st.get('loads_waiting_for_a_block', 0)))
     return ck.finish()
